@@ -68,6 +68,10 @@ func (ctx *context) ApplyFilter(name string, receiver valueFn, params []valueFn)
 	if !ok {
 		panic(UndefinedFilter(name))
 	}
+	if ctx.depth++; ctx.depth > maxFilterDepth {
+		panic(InterpreterError(fmt.Sprintf("more than %d filters in a chain", maxFilterDepth)))
+	}
+	defer func() { ctx.depth-- }()
 	fr := reflect.ValueOf(filter)
 	args := []any{receiver(ctx).Interface()}
 	for i, param := range params {
